@@ -29,7 +29,15 @@ RULE = ("every tree of U(n) (all rooted shapes on n labelled leaves, n up to the
         "(one chain of 1 or 2 above any node incl. leaves and the root, or two single ones above any two nodes; every child "
         "order up to 4 leaves, as-generated and reversed above; every survivor subset x suppress {T,F}; each extraction "
         "result compared with the reference AND with prune_taxa / retain_taxa run in place on a fresh copy), and "
-        "Node.extract_subtree started at every inner node; namespaces in which one label names several Taxon objects "
+        "Node.extract_subtree started at every inner node; histories on ONE source tree (n <= 4): every ordered pair "
+        "[extraction 1 from {extract_tree_with_taxa(every subset), extract_tree with a node filter that rejects each single "
+        "internal node - the root included, i.e. a refused call - or all non-root ones x {all leaves, every all-but-one set}, an "
+        "extraction that keeps nothing}; extraction 2 from {extract_tree_with_taxa(every subset), extract_tree(leaf filter, every "
+        "subset)}] and every [extract(S1 single / all-but-one / all); prune_taxa / retain_taxa in place to S2; extract(S3 within S2)], each extraction judged by the "
+        "induced subtree of the source as it then is; after every extraction call (also a refused one; all layers, except that of the five "
+        "length layers of the core only 'none' and 'pow2' and of the unifurcation layer only the as-generated child orders carry it) "
+        "the __dict__ of the source tree, of every source node and of every source edge is compared with its state before; "
+        "namespaces in which one label names several Taxon objects "
         "(two taxa with identical labels, or 'a'/'A' with is_case_sensitive False and True; both on the tree, or one of them "
         "only in the namespace, before or after the others) x every non-empty subset of the distinct labels x the four "
         "*_labels APIs x suppress {T,F}, each against the induced subtree on the leaves whose label matches under the "
@@ -45,6 +53,9 @@ ASSUMPTIONS = [
     "keeps its taxon and label, with lengths added, None + x = x, None + None = None; a root left with one child is replaced by it)",
     "the nodes 'reported as removed' are the nodes whose restriction is empty; nodes spliced out by unifurcation suppression "
     "are suppressed, not removed, and are not expected in the returned list",
+    "'extraction never alters the source tree' includes the object state: attribute names of tree / nodes / edges, identity "
+    "of object-valued attributes and of list attributes and their elements, equality of numbers and strings",
+    "an extraction that would keep no leaf must be refused; which exception it raises is not judged",
     "labels layer: prune/retain_taxa_with_labels mean 'every Taxon of the namespace whose label matches under the namespace's "
     "is_case_sensitive rule'; extract_tree_with(out)_taxa_labels say 'labels matching those listed' without a case rule, so "
     "for them exact matching and the namespace rule are both accepted and agreement with the in-place calls is demanded only "
@@ -100,7 +111,7 @@ def bounds(tier):
                 "layers_at_max": ["none", "unit", "cyc123", "pow2", "partial"],
                 "internal_taxa_max_leaves": 4, "internal_taxa_internal_prune_sets_only_at": 5, "containers_max_leaves": 4, "unifurcation_max_leaves": 4,
                 "unifurcation_all_orders_up_to": 4,
-                "node_extract_max_leaves": 5, "subsets": "all non-empty", "label_layer_max_leaves": 4,
+                "node_extract_max_leaves": 5, "subsets": "all non-empty", "label_layer_max_leaves": 4, "repeat_layer_max_leaves": 4,
                 "label_layer": {"variants": LABEL_VARIANTS, "placements": LABEL_PLACEMENTS, "is_case_sensitive": [False, True],
                                 "requests": "every non-empty subset of the distinct namespace labels", "apis": LABEL_APIS},
                 "large_representatives": [big_name(d) for d in big_descriptors()], "large_layer": LARGE}
@@ -108,7 +119,7 @@ def bounds(tier):
             "layers_at_max": ["none", "pow2", "partial"],
             "internal_taxa_max_leaves": 5, "internal_taxa_internal_prune_sets_only_at": 6, "containers_max_leaves": 5, "unifurcation_max_leaves": 5,
             "unifurcation_all_orders_up_to": 4,
-            "node_extract_max_leaves": 6, "subsets": "all non-empty", "label_layer_max_leaves": 5,
+            "node_extract_max_leaves": 6, "subsets": "all non-empty", "label_layer_max_leaves": 5, "repeat_layer_max_leaves": 4,
             "label_layer": {"variants": LABEL_VARIANTS, "placements": LABEL_PLACEMENTS, "is_case_sensitive": [False, True],
                             "requests": "every non-empty subset of the distinct namespace labels", "apis": LABEL_APIS},
             "large_representatives": [big_name(d) for d in big_descriptors()], "large_layer": LARGE}
@@ -145,6 +156,13 @@ def chunks(tier):
         for lo in range(0, ns, step):
             for part in range(parts):
                 out.append({"kind": "unif", "n": n, "lo": lo, "hi": min(ns, lo + step), "tier": tier, "parts": parts, "part": part})
+    for n in range(1, b["repeat_layer_max_leaves"] + 1):
+        ns = len(U.shapes(n))
+        parts = 4 if n >= 4 else 1
+        for lo in range(0, ns, 1 if n >= 4 else 30):
+            for part in range(parts):
+                out.append({"kind": "repeat", "n": n, "lo": lo, "hi": min(ns, lo + (1 if n >= 4 else 30)), "tier": tier,
+                            "parts": parts, "part": part})
     for n in range(1, b["label_layer_max_leaves"] + 1):
         ns = len(U.shapes(n))
         step = 4 if n >= 5 else 7
@@ -484,6 +502,73 @@ def path_problem(got, src, keep):
 
 
 # ---------------------------------------------------------------------------
+# object state of a source tree ("extraction never alters the source": not only its shape)
+
+_PRIMITIVE = (type(None), bool, int, float, str)
+
+
+def capture_state(tree):
+    """[(description, object, its __dict__ items as a tuple, [(list-valued attribute, its elements)])] for
+    the tree, every node and every edge reachable from the seed"""
+    out = []
+    objs = [("tree", tree)]
+    for i, nd in enumerate(live_preorder(tree)):
+        objs.append((i, nd))
+        if nd._edge is not None:
+            objs.append((-1 - i, nd._edge))
+    for desc, o in objs:
+        d = o.__dict__
+        out.append((desc, o, tuple(d.items()), [(v, tuple(v)) for v in d.values() if type(v) is list]))
+    return out
+
+
+def _state_desc(desc):
+    if desc == "tree":
+        return desc
+    return "node #%d" % desc if desc >= 0 else "edge of node #%d" % (-1 - desc)
+
+
+def state_problem(state):
+    """None, or a description of the first attribute of a source object that appeared, vanished or
+    changed (same attribute names; values the same object or ==; list attributes the same list object
+    with the same elements)"""
+    for desc, o, items, lists in state:
+        if tuple(o.__dict__.items()) != items:
+            cur, d = o.__dict__, dict(items)
+            if cur.keys() != d.keys():
+                return "%s: attributes added %s, removed %s" % (_state_desc(desc), sorted(k for k in cur if k not in d),
+                                                                sorted(k for k in d if k not in cur))
+            for k, v in d.items():
+                if cur[k] is not v and not (type(cur[k]) is type(v) and cur[k] == v):
+                    return "%s: attribute %r changed from %r to %r" % (_state_desc(desc), k, v, cur[k])
+        for v, elems in lists:
+            if len(v) != len(elems) or any(a is not b for a, b in zip(v, elems)):
+                return "%s: a list attribute was changed in place" % _state_desc(desc)
+    return None
+
+
+def state_wanted(case):
+    """The object-state comparison costs as much as the call itself, so it is made on every extraction call
+    of the layers 'none' and 'pow2' (object state does not depend on the edge-length pattern: the other three
+    length layers repeat the same calls), on the as-generated child order in the unifurcation layer, and on
+    every call of all other layers (histories, labels, large trees, internal taxa, containers, Node.extract_subtree)."""
+    if case.get("nostate"):
+        return False
+    return case.get("lens") not in ("unit", "cyc123", "partial") or bool(case.get("big"))
+
+
+def report_state(ctx, api, case, state, when=""):
+    if state is None:
+        return None
+    ctx.count("source_object_states_checked")
+    p = state_problem(state)
+    if p:
+        ctx.violation("%s|source-object-state-changed" % api,
+                      "%s%s left the source tree's objects in a different state: %s" % (api, when, p), case)
+    return p
+
+
+# ---------------------------------------------------------------------------
 # one case
 
 def _src(case):
@@ -783,6 +868,7 @@ def check_extract(case, ctx):
     attr_name = "extraction_source" if attr == "" else attr
     removed_subtrees = frozenset()
     eff_keep = keep
+    state = capture_state(tree) if state_wanted(case) else None
     try:
         if api == "extract_tree":
             if case.get("nofilter"):
@@ -813,9 +899,11 @@ def check_extract(case, ctx):
         else:
             raise ValueError(api)
     except Exception as e:
+        report_state(ctx, api, case, state, " (which raised)")
         ctx.violation(_sig(case, "exception|%s" % type(e).__name__),
                       "%s(survivors=%s, suppress_unifurcations=%r) on %s raised %r" % (api, sorted(keep), suppress, ref.to_newick(sn), e), case)
         return
+    report_state(ctx, api, case, state)
     want = filtered(sn, eff_keep, True, suppress, removed_subtrees)
     wother = filtered(sn, eff_keep, True, not suppress, removed_subtrees)
     if want is None:
@@ -901,13 +989,16 @@ def check_node_extract(case, ctx):
     suppress = case["suppress"]
     sub = cl[i][1]
     fn = lambda nd: nd.taxon is not None and nd.taxon.label in keep
+    state = capture_state(tree)
     try:
         res = nodes[i].extract_subtree(node_filter_fn=fn, suppress_unifurcations=suppress)
     except Exception as e:
+        report_state(ctx, "Node.extract_subtree", case, state, " (which raised)")
         ctx.violation(_sig(case, "inner-start-node|exception|%s" % type(e).__name__),
                       "Node.extract_subtree at node %s of %s (survivors %s, suppress_unifurcations=%r) raised %r" % (
                           sub[1], ref.to_newick(sn), sorted(keep), suppress, e), case)
         return
+    report_state(ctx, "Node.extract_subtree", case, state)
     want = filtered(sub, keep, True, suppress)
     wother = filtered(sub, keep, True, not suppress)
     # `sn` for the path check is the subtree; the source-untouched check uses the whole tree
@@ -1083,6 +1174,7 @@ def check_label_group(case, ctx):
         ctx.case(_key(dict(sub, kind="labelcall")), nontrivial=True)
         tree, _, _, _ = _build_label_tree(case)
         nodes = live_preorder(tree)
+        state = capture_state(tree) if api.startswith("extract") else None
         try:
             if api.startswith("extract"):
                 res = getattr(tree, api)(arg, suppress_unifurcations=suppress)
@@ -1099,6 +1191,7 @@ def check_label_group(case, ctx):
             ctx.violation("%s|%s|malformed-tree" % (api, variant), "; ".join(probs), case)
             continue
         if api.startswith("extract"):
+            report_state(ctx, api, case, state)
             if [id(x) for x in live_preorder(tree)] != [id(x) for x in nodes] or ref.snap_node(tree._seed_node) != sn:
                 ctx.violation("%s|%s|source-altered" % (api, variant), "%s changed its source tree" % api, case)
         got = ref.snap_node(res._seed_node)
@@ -1138,6 +1231,121 @@ def check_label_group(case, ctx):
                               "on %s with namespace labels %s (is_case_sensitive=%r): %s(%s) gives %s but %s(%s) gives %s" % (
                                   ref.to_newick(sn), nslabels, case["cs"], x[0], list(x[1]), ref.to_newick(results[x]),
                                   y[0], list(y[1]), ref.to_newick(results[y])), case)
+
+
+# ---------------------------------------------------------------------------
+# repeated extraction from one source (state left behind by one call must not leak into the next)
+
+def _step_kind(step):
+    api = step["api"]
+    if api in ("prune_taxa", "retain_taxa"):
+        return api
+    if step.get("excluded"):
+        return "extract_tree-internal-filter"
+    return api
+
+
+def check_repeat(case, ctx):
+    """case: kind=repeat, n, shape, lens, steps = [step...]; step = {api, keep, suppress[, excluded]}
+    with api in extract_tree_with_taxa / extract_tree (node filter; `excluded` = labels of internal nodes
+    the predicate rejects, is_apply_filter_to_internal_nodes=True) / prune_taxa / retain_taxa (in place on
+    the source).  All steps act on ONE live source tree; every extraction step is judged by the induced
+    subtree of the source as it then is; a step whose expectation is empty must be refused (raise)."""
+    shape, sn = _src(case)
+    labels = _labels(case)
+    ns, bit = build.make_namespace(labels, "exact")
+    tree = build.build_tree((True, sn), ns)
+    taxa = dict((t._label, t) for t in ns._taxa)
+    cur = sn
+    prev = "start"
+    for k, step in enumerate(case["steps"]):
+        api, suppress = step["api"], step["suppress"]
+        kind = _step_kind(step)
+        here = frozenset(x for x in ref.leaves(cur) if x is not None)
+        keep = frozenset(step["keep"]) & here
+        sig = "repeat|%s->%s|" % (prev, kind)
+        ctx.count("repeat_layer_calls")
+        if api in ("prune_taxa", "retain_taxa"):
+            want = filtered(cur, keep, True, suppress)
+            if want is None:
+                raise AssertionError("harness: in-place step that removes every leaf generated: %r" % (case,))
+            try:
+                if api == "prune_taxa":
+                    tree.prune_taxa([taxa[l] for l in sorted(here - keep)], suppress_unifurcations=suppress)
+                else:
+                    tree.retain_taxa([taxa[l] for l in sorted(keep)], suppress_unifurcations=suppress)
+            except Exception as e:
+                ctx.violation(sig + "exception|%s" % type(e).__name__, "step %d of %s raised %r" % (k, case["steps"], e), case)
+                return
+            got = ref.snap_node(tree._seed_node)
+            f = classify(got, want, None)
+            if f is not None or ref.wellformed(tree):
+                ctx.violation(sig + (f or "malformed-tree"), "after steps %s the source is %s, induced subtree is %s" % (
+                    case["steps"][:k + 1], ref.to_newick(got), ref.to_newick(want)), case)
+                return
+            cur = got
+            prev = kind
+            continue
+        excluded = frozenset(step.get("excluded", ()))
+        want = filtered(cur, keep, True, suppress, excluded)
+        other = None if want is None else filtered(cur, keep, True, not suppress, excluded)
+        nodes = live_preorder(tree)
+        state = capture_state(tree)
+        err = None
+        res = None
+        try:
+            if api == "extract_tree_with_taxa":
+                res = tree.extract_tree_with_taxa([taxa[l] for l in sorted(keep)], suppress_unifurcations=suppress)
+            elif api == "extract_tree":
+                def fn(nd, keep=keep, excluded=excluded):
+                    if nd._child_nodes:
+                        return nd.label not in excluded
+                    return nd.taxon is not None and nd.taxon.label in keep
+                res = tree.extract_tree(node_filter_fn=fn, suppress_unifurcations=suppress,
+                                        is_apply_filter_to_internal_nodes=bool(excluded))
+            else:
+                raise ValueError(api)
+        except ValueError as e:
+            if api not in ("extract_tree_with_taxa", "extract_tree"):
+                raise
+            err = e
+        except Exception as e:
+            err = e
+        if state_problem(state):
+            ctx.violation(sig + "source-object-state-changed", "step %d of %s%s: %s" % (
+                k, case["steps"], " (which raised %r)" % (err,) if err is not None else "", state_problem(state)), case)
+        if [id(x) for x in live_preorder(tree)] != [id(x) for x in nodes] or ref.snap_node(tree._seed_node) != cur:
+            ctx.violation(sig + "source-altered", "step %d of %s changed the source tree" % (k, case["steps"]), case)
+            return
+        if want is None:
+            # nothing would survive: the call has to be refused; what it raises is the library's business
+            ctx.count("repeat_layer_refused_calls")
+            if err is None:
+                ctx.count("repeat_layer_refused_calls_that_returned")
+            prev = kind + "-refused"
+            continue
+        if err is not None:
+            ctx.violation(sig + "exception|%s" % type(err).__name__, "step %d of %s on %s raised %r; induced subtree is %s" % (
+                k, case["steps"], ref.to_newick(cur), err, ref.to_newick(want)), case)
+            return
+        probs = ref.wellformed(res)
+        if probs:
+            ctx.violation(sig + "malformed-tree", "; ".join(probs), case)
+            return
+        ids = set(id(x) for x in nodes)
+        got = ref.snap_node(res._seed_node)
+        if any(id(x) in ids for x in live_preorder(res)):
+            ctx.violation(sig + "shares-nodes-with-source", "step %d of %s: the extracted tree contains node objects of the source" % (
+                k, case["steps"]), case)
+            return
+        f = classify(got, want, other)
+        if f is not None:
+            if f == "flag":
+                f = "suppress_unifurcations-flag-not-honoured"
+            ctx.violation(sig + f, "steps %s on %s: step %d gave %s, the induced subtree of the source (then %s) is %s" % (
+                case["steps"], ref.to_newick(sn), k, ref.to_newick(got), ref.to_newick(cur), ref.to_newick(want)), case)
+            return
+        prev = kind
 
 
 class _Probe(object):
@@ -1190,6 +1398,8 @@ def _check(case, ctx):
         check_unif_group(case, ctx)
     elif k == "labelgroup":
         check_label_group(case, ctx)
+    elif k == "repeat":
+        check_repeat(case, ctx)
     else:
         raise ValueError("unknown case kind %r" % (k,))
 
@@ -1223,6 +1433,8 @@ def run_chunk(chunk, ctx):
         return run_big(chunk, ctx)
     if kind == "labels":
         return run_labels(chunk, ctx)
+    if kind == "repeat":
+        return run_repeat(chunk, ctx)
     raise ValueError(kind)
 
 
@@ -1427,7 +1639,10 @@ def run_unif(chunk, ctx):
             ctx.count("source_drawings_with_unifurcations")
             for keep in nonempty_subsets(labels):
                 for suppress in (True, False):
-                    check_unif_group(dict(base, kind="unifgroup", keep=list(keep), suppress=suppress), ctx)
+                    g = dict(base, kind="unifgroup", keep=list(keep), suppress=suppress)
+                    if not is_base:
+                        g["nostate"] = True
+                    check_unif_group(g, ctx)
                     if is_base:
                         # the remaining entry points on the as-generated order
                         for api in INPLACE:
@@ -1443,6 +1658,75 @@ def run_unif(chunk, ctx):
                     for suppress in (True, False):
                         _do(dict(base, kind="subtree", api="prune_subtree", node=i, suppress=suppress, upd=False), ctx, "unifurcation_layer_calls", nt)
     return None
+
+
+def repeat_menus(sn, labels):
+    """(first calls, second calls) for the ordered-pair histories on one source tree"""
+    cl = ref.clade_list(sn)
+    inner_all = [nd[1] for c, nd in cl if nd[3]]           # the root included: rejecting it refuses the call
+    subsets = [list(k) for k in nonempty_subsets(labels)]
+    first = []
+    for keep in subsets:
+        first.append({"api": "extract_tree_with_taxa", "keep": keep, "suppress": True})
+    xs = [[x] for x in inner_all]
+    if len(inner_all) > 1:
+        xs.append(list(inner_all[1:]) or list(inner_all))
+    wide = [list(labels)] + [[l for l in labels if l != x] for x in labels if len(labels) > 1]
+    for keep in wide:                      # all leaves and every all-but-one set
+        for ex in xs:
+            first.append({"api": "extract_tree", "keep": keep, "suppress": True, "excluded": ex})
+    first.append({"api": "extract_tree_with_taxa", "keep": [], "suppress": True})        # refused: nothing survives
+    second = []
+    for keep in subsets:
+        second.append({"api": "extract_tree_with_taxa", "keep": keep, "suppress": len(keep) % 2 == 1})
+        second.append({"api": "extract_tree", "keep": keep, "suppress": True})
+    return first, second
+
+
+def run_repeat(chunk, ctx):
+    """every ordered pair [extraction 1; extraction 2] and every [extract; prune/retain in place; extract]
+    on one source tree"""
+    n = chunk["n"]
+    labels = U.LABELS[:n]
+    shapes = U.shapes(n)
+    for si in range(chunk["lo"], chunk["hi"]):
+        shape = shapes[si]
+        sn = source_snapshot(shape, "pow2")
+        base = {"kind": "repeat", "n": n, "shape": shape, "lens": "pow2"}
+        first, second = repeat_menus(sn, labels)
+        ctx.count("repeat_layer_source_trees")
+        fi = 0
+        for a in first:
+            if fi % chunk["parts"] == chunk["part"]:
+                for b2 in second:
+                    case = dict(base, steps=[a, b2])
+                    ctx.case(_key_steps(case), nontrivial=n >= 2)
+                    ctx.count("repeat_layer_histories")
+                    check_repeat(case, ctx)
+            fi += 1
+        # extract; prune / retain in place; extract
+        subsets = [list(k) for k in nonempty_subsets(labels)]
+        hi = 0
+        for k1 in subsets:
+            if 1 < len(k1) < n - 1:
+                continue                    # first survivors: singles, all-but-one sets, all
+            for j, k2 in enumerate(subsets):
+                hi += 1
+                if hi % chunk["parts"] != chunk["part"]:
+                    continue
+                mid = {"api": "prune_taxa" if j % 2 == 0 else "retain_taxa", "keep": k2, "suppress": (len(k1) + j) % 3 != 0}
+                for k3 in nonempty_subsets(k2):
+                    case = dict(base, steps=[{"api": "extract_tree_with_taxa", "keep": k1, "suppress": True}, mid,
+                                             {"api": "extract_tree_with_taxa", "keep": list(k3), "suppress": True}])
+                    ctx.case(_key_steps(case), nontrivial=n >= 2)
+                    ctx.count("repeat_layer_histories")
+                    check_repeat(case, ctx)
+    return None
+
+
+def _key_steps(case):
+    return ("repeat", case["shape"], tuple(tuple(sorted((k, tup(v) if isinstance(v, list) else v) for k, v in st.items()))
+                                           for st in case["steps"]))
 
 
 def run_labels(chunk, ctx):
